@@ -15,6 +15,7 @@ import Usid.Driver.Reduce
 import Usid.Driver.Csv
 import Usid.Driver.Empty
 import Usid.Driver.Translate
+import Usid.Driver.ReadOnly
 /-! Line-protocol driver over the hand-written models: one JSON request per line on stdin,
     one JSON response per line on stdout. -/
 namespace Usid.Driver
@@ -38,7 +39,8 @@ def handlers : List (String × (Json → R Json)) := [
   ("reduce.run", hReduce),
   ("csv.lines", hCsvLines), ("csv.fs", hCsvFs),
   ("empty.run", hEmptyRun),
-  ("trans.sidpy", hTransSidpy), ("trans.image", hTransImage), ("trans.array", hTransArray)
+  ("trans.sidpy", hTransSidpy), ("trans.image", hTransImage), ("trans.array", hTransArray),
+  ("ro.run", hRoRun)
 ]
 
 def respond (tbl : List (String × (Json → R Json))) (line : String) : String :=
